@@ -2,6 +2,9 @@ import ParryModel.Field
 import ParryModel.C09.Model
 import ParryModel.C19.Model
 import ParryModel.C20.Theorems2
+import ParryModel.C20.Theorems3
+import ParryModel.C20.Theorems4
+import ParryModel.C20.Theorems5
 import ParryModel.C20.Theorems6
 import ParryModel.C20.Theorems7
 import ParryModel.C20.Theorems8
